@@ -19,7 +19,8 @@ func init() {
 		Explanation: "Decides structural necessary conditions of well-formed IR: for every instruction type, the set of fields that hold operands (Value, []Value, CallCommon, select states — found from the struct types) equals the set of field addresses its Operands method yields, which is what referrer construction and value replacement see (R2.1); every place that removes an instruction from a block (nils an Instrs entry) or clears an operand either detaches it from its operands' referrer lists, has redirected its uses, or removes an Alloc/φ whose own referrers are being deleted in the same pass — the idioms are enumerated and each site must match one (R2.2); " +
 			"every instruction value handed to (*Function).emit has had its type set on all paths, directly or by an emit helper (R2.3); control instructions (If, Jump, ConstantSwitch, TypeSwitch, Return, Panic, Unreachable) are created only together with the matching number of addEdge calls, in a fixed set of reviewed functions (R2.4); phis are created only by the lifting pass and the builder's two explicit sites, always with one edge slot per predecessor (R2.5). " +
 			"It does NOT decide def-dominates-use or the per-instruction typing rules on all programs (facts about the builder's output, not its shape)." +
-			" Also decided: a block saved from fn.currentBlock to be emitted into later (switch headers) cannot have been terminated by lowering in between (found and led to the repair of the malformed IR for `switch a && b {…}`).",
+			" Also decided: a block saved from fn.currentBlock to be emitted into later (switch headers) cannot have been terminated by lowering in between (found and led to the repair of the malformed IR for `switch a && b {…}`)." +
+			" The block optimisations (jump threading, block fusion) never edit the graph after hasPhi() answered true for the block concerned, and each of them asks.",
 		RuleText:    "struct-field vs. method-body agreement from go/types and SSA; must-pass-through path queries; who-may-construct tables",
 		Assumptions: []string{"buildReferrers and replaceAll visit exactly what Operands yields (checked: they call Operands)"},
 		Run:         runC02,
